@@ -1730,7 +1730,7 @@ static std::pair<It, It> divide_by_destination(InDegree& inDegree, int id,
   if (id + 1 == total)
     eb = inDegree.end();
   else
-    eb = std::upper_bound(bb, inDegree.end(), (id + 1) * block);
+    eb = std::lower_bound(bb, inDegree.end(), (id + 1) * block);
   return std::make_pair(bb, eb);
 }
 
